@@ -1,6 +1,6 @@
 """C09 — tag selection with inheritance selects exactly the matching scenarios."""
 from __future__ import annotations
-import random, copy
+import re, random, itertools, copy
 import runcluster as rc
 import runprog
 from props.c02 import scenarios_of, results_of, eval_expr
@@ -184,6 +184,73 @@ def nontrivial(prog, obs):
 KINDS = [("pass", 10), ("fail", 3), ("error", 1), ("pending", 1), ("undefined", 1), ("skip", 1), ("cleanupok", 1)]
 
 
+# ------------------------------------------------------------------ file name patterns (--include / --exclude) with tags
+FP_FILES = {
+    "checkout.feature": (["shop"], [("S1", ["smoke"]), ("S2", ["wip"])]),
+    "checkout_legacy.feature": (["smoke"], [("S3", []), ("S4", ["wip"])]),
+    "search.feature": ([], [("S5", ["smoke", "wip"]), ("S6", [])]),
+    "legacy_search.feature": (["wip"], [("S7", ["smoke"])]),
+}
+FP_TAGS = {None: lambda t: True, "@smoke": lambda t: "smoke" in t, "not @wip": lambda t: "wip" not in t,
+           "@smoke and not @wip": lambda t: "smoke" in t and "wip" not in t}
+
+
+def impl_file_patterns(case):
+    import subprocess, tempfile, shutil, json, sys, os
+    import common
+    top = tempfile.mkdtemp(prefix="c09_files_")
+    try:
+        os.makedirs(os.path.join(top, "features", "steps"))
+        for fname, (ftags, scens) in FP_FILES.items():
+            lines = ["".join("@%s " % t for t in ftags).strip(), "Feature: %s" % fname]
+            for name, tags in scens:
+                lines += ["  " + "".join("@%s " % t for t in tags).strip(), "  Scenario: %s" % name, "    Given a step"]
+            with open(os.path.join(top, "features", fname), "w") as fh:
+                fh.write("\n".join(l for l in lines if l.strip()) + "\n")
+        with open(os.path.join(top, "features", "steps", "steps.py"), "w") as fh:
+            fh.write("from behave import given\n@given('a step')\ndef s(context):\n    pass\n")
+        args = ["-f", "json", "-o", "report.json", "--show-skipped" if case["show_skipped"] else "--no-skipped"]
+        if case["include"]:
+            args += ["--include", case["include"]]
+        if case["exclude"]:
+            args += ["--exclude", case["exclude"]]
+        if case["tags"]:
+            args += ["--tags", case["tags"]]
+        env = dict(os.environ, PYTHONPATH=common.REPO, HOME=top)
+        p = subprocess.run([sys.executable, "-m", "behave", "--no-color"] + args, cwd=top, env=env, capture_output=True, text=True, timeout=120)
+        try:
+            rep = json.load(open(os.path.join(top, "report.json")))
+        except Exception as e:      # noqa
+            return {"exit": p.returncode, "error": "%s: %s" % (type(e).__name__, (p.stdout + p.stderr)[-300:])}
+        ran, seen = [], []
+        for f in rep:
+            for el in f.get("elements", []):
+                if el.get("type") == "scenario":
+                    seen.append(el["name"])
+                    if el.get("status") == "passed":
+                        ran.append(el["name"])
+        return {"exit": p.returncode, "ran": sorted(ran), "features": sorted(os.path.basename(f["location"].split(":")[0]) for f in rep)}
+    finally:
+        shutil.rmtree(top, ignore_errors=True)
+
+
+def oracle_file_patterns(case, obs):
+    if "error" in obs:
+        return [("run with %r gave no report: %s" % (case, obs["error"]), "file-pattern-run-failed")]
+    files = [f for f in FP_FILES if (not case["include"] or re.search(case["include"], "features/" + f))
+             and not (case["exclude"] and re.search(case["exclude"], "features/" + f))]
+    want = sorted(name for f in files for name, tags in FP_FILES[f][1] if FP_TAGS[case["tags"]](set(tags) | set(FP_FILES[f][0])))
+    out = []
+    if obs["ran"] != want:
+        out.append(("--include %r --exclude %r --tags %r: executed %s, the scenarios of the selected files %s whose effective tags satisfy the "
+                    "expression are %s" % (case["include"], case["exclude"], case["tags"], obs["ran"], sorted(files), want), "file-pattern-selection"))
+    extra = [f for f in obs["features"] if f not in files]
+    if extra:
+        out.append(("--include %r --exclude %r: feature files %s were loaded although the patterns leave them out" % (
+            case["include"], case["exclude"], extra), "file-pattern-selection"))
+    return out
+
+
 def suites(tier, seed):
     rnd = random.Random(seed * 31337 + 9)
     n = 6000 if tier == "thorough" else 1300
@@ -229,7 +296,16 @@ def suites(tier, seed):
                      "outline / outline row carrying the tag x9: excluded elements are treated like de-selected ones (oracle), "
                      "and every run goes through the Coq model (Runner.v: c_excl / items_cfg / sel)" % len(xcases),
             "coq": rc.COQ}
-    return [excl, {"name": "selection", "cases": cases, "impl": rc.impl_run, "oracle": oracle, "nontrivial": nontrivial,
+    fcases = [{"include": i, "exclude": e, "tags": t, "show_skipped": (k % 2 == 0)}
+              for k, (i, e, t) in enumerate(itertools.product([None, "checkout", "search", "legacy"], [None, "legacy", "checkout"],
+                                                              list(FP_TAGS)))]
+    if tier != "thorough":
+        fcases = [c for k, c in enumerate(fcases) if (c["include"] and c["exclude"]) or k % 4 == (seed % 4)]
+    fpat = {"name": "file_patterns", "cases": fcases, "impl": impl_file_patterns, "oracle": oracle_file_patterns, "exhaustive": True,
+            "nontrivial": lambda c, o: bool(c["include"] or c["exclude"]),
+            "bound": "%d projects on disk run by python -m behave: --include x --exclude file name patterns x tag expression over 4 "
+                     "feature files (oracle only)" % len(fcases)}
+    return [fpat, excl, {"name": "selection", "cases": cases, "impl": rc.impl_run, "oracle": oracle, "nontrivial": nontrivial,
              "histogram": rc.histogram, "shrink": rc.shrink_program,
              "bound": "%d seeded random tagged programs over a pool of %d expressions" % (len(cases), len(POOL)),
              "coq": rc.COQ}]
